@@ -82,9 +82,19 @@ Inductive vg_pc :=
 Definition vg_start (c : vg_call) : vg_pc :=
   match c with VgSuccess rtt => VuLoadMin rtt | VgFailure => VfLoad | VgLimit => VlLoad end.
 
+(* adjust_limit (algorithm.rs, /repo 96e4b2b): current_limit.saturating_add(1).min(max_limit)
+   -- saturation at usize::MAX; (current_limit.saturating_sub(1)).max(min_limit) *)
 Definition vg_new (c : vcfg) (qest : Z -> Z -> Z -> Z) (mn sm cur : Z) : Z :=
   let q := if mn <? sm then qest sm mn cur else 0 in
-  if q <? v_alpha c then Z.min (cur + 1) (v_max c)
+  if q <? v_alpha c then Z.min (sat_add cur 1) (v_max c)
+  else if v_beta c <? q then Z.max (sat_sub cur 1) (v_min c)
+  else cur.
+
+(* the same step as it was before 96e4b2b, in a build without overflow checks:
+   (current_limit + 1) wraps in usize (kept for the regression witness in Proof/Adaptive.v) *)
+Definition vg_new_wrap (c : vcfg) (qest : Z -> Z -> Z -> Z) (mn sm cur : Z) : Z :=
+  let q := if mn <? sm then qest sm mn cur else 0 in
+  if q <? v_alpha c then Z.min ((cur + 1) mod (U64MAX + 1)) (v_max c)
   else if v_beta c <? q then Z.max (sat_sub cur 1) (v_min c)
   else cur.
 
@@ -143,9 +153,48 @@ Definition smooth_half (rtt cur : Z) : Z := (rtt + cur) / 2.
 Definition qest_q (sm mn lim : Z) : Z := ((sm - mn) * lim) / mn.
 
 (* ------------------------------------------------------------------------- *)
-(* (b) the service. Times in ms. *)
+(* (a3) the algorithms run by ONE task (the service of part (b) feeds them from a
+   current-thread runtime): state and the two feedback functions. AIMD only uses [as_lim]. *)
+Record ast := { as_lim : Z; as_mn : Z; as_sm : Z; as_cnt : Z }.
+Definition ast_set_lim (a : ast) (v : Z) : ast :=
+  {| as_lim := v; as_mn := as_mn a; as_sm := as_sm a; as_cnt := as_cnt a |}.
+
+(* [al_ok lat] = record_success(latency lat, in ms); [al_err] = record_failure() *)
+Record alg := { al_ok : Z -> ast -> ast; al_err : ast -> ast }.
+
+(* Aimd (algorithm.rs): a success slower than the threshold is a congestion signal *)
+Definition aimd_alg (c : acfg) (dec : Z -> Z) (thr : Z) : alg :=
+  {| al_ok := fun lat a => ast_set_lim a (if thr <? lat then ctl_fail c dec (as_lim a)
+                                          else ctl_succ c (as_lim a));
+     al_err := fun a => ast_set_lim a (ctl_fail c dec (as_lim a)) |}.
+Definition aimd_init (c : acfg) (initial : Z) : ast :=
+  {| as_lim := ctl_init c initial; as_mn := 0; as_sm := 0; as_cnt := 0 |}.
+
+(* Vegas::record_success(latency) = update_rtt; adjust_limit, executed without interruption
+   (the sequential reading of the atomic-step program [vg_prog], see Proof/Adaptive.v
+   vegas_alone_is_sequential); rtt in ns *)
+Definition vs_succ (c : vcfg) (smooth : Z -> Z -> Z) (qest : Z -> Z -> Z -> Z) (rtt : Z) (a : ast)
+  : ast :=
+  let mn := if rtt <? as_mn a then rtt else as_mn a in
+  let sm := if as_sm a =? 0 then rtt else smooth rtt (as_sm a) in
+  let cnt := as_cnt a + 1 in
+  let lim :=
+    if cnt <? v_min_samples c then as_lim a
+    else if (mn =? U64MAX) || (mn =? 0) || (sm =? 0) then as_lim a
+    else vg_new c qest mn sm (as_lim a) in
+  {| as_lim := lim; as_mn := mn; as_sm := sm; as_cnt := cnt |}.
+Definition vs_fail (c : vcfg) (a : ast) : ast := ast_set_lim a (Z.max (as_lim a / 2) (v_min c)).
+
+Definition NS_PER_MS : Z := 1000000.
+Definition vegas_alg (c : vcfg) (smooth : Z -> Z -> Z) (qest : Z -> Z -> Z -> Z) : alg :=
+  {| al_ok := fun lat a => vs_succ c smooth qest (lat * NS_PER_MS) a; al_err := vs_fail c |}.
+Definition vegas_init (c : vcfg) (initial : Z) : ast :=
+  {| as_lim := clampz (v_min c) (v_max c) initial; as_mn := U64MAX; as_sm := 0; as_cnt := 0 |}.
+
+(* ------------------------------------------------------------------------- *)
+(* (b) the service, driven by one task. Times in ms. *)
 Record svc := {
-  sv_limit : Z;                  (* algorithm.limit() (Aimd) *)
+  sv_alg : ast;                  (* the state of the (shared) algorithm *)
   sv_inflight : Z;               (* the in_flight counter *)
   sv_live : list (nat * Z);      (* call futures alive: id, start instant *)
   sv_created : list nat;         (* ids used so far *)
@@ -153,6 +202,7 @@ Record svc := {
   sv_now : Z;
   sv_inner : Z                   (* inner poll_ready: 0 Ready(Ok), 1 Pending, 2 Ready(Err) *)
 }.
+Definition sv_limit (s : svc) : Z := as_lim (sv_alg s).   (* algorithm.limit() *)
 
 Inductive sev :=
 | EReady                         (* poll_ready *)
@@ -180,8 +230,8 @@ Fixpoint remove_key {V : Type} (a : nat) (l : list (nat * V)) : list (nat * V) :
 Fixpoint memn (a : nat) (l : list nat) : bool :=
   match l with [] => false | k :: t => Nat.eqb k a || memn a t end.
 
-Definition sv_set (s : svc) (limit inflight : Z) (live : list (nat * Z)) : svc :=
-  {| sv_limit := limit; sv_inflight := inflight; sv_live := live; sv_created := sv_created s;
+Definition sv_set (s : svc) (al : ast) (inflight : Z) (live : list (nat * Z)) : svc :=
+  {| sv_alg := al; sv_inflight := inflight; sv_live := live; sv_created := sv_created s;
      sv_gate := sv_gate s; sv_now := sv_now s; sv_inner := sv_inner s |}.
 
 (* result codes: poll_ready 10 Pending (inner) / 11 Ready(Ok) / 12 Ready(Err) / 13 Pending at
@@ -191,21 +241,21 @@ Definition sv_set (s : svc) (limit inflight : Z) (live : list (nat * Z)) : svc :
    external feedback on the shared algorithm: 80 failure / 81 success.
    poll_ready compares in_flight with the algorithm's CURRENT limit (algorithm.limit()), not
    with a copy refreshed by this service's own calls. *)
-Definition sv_step (c : acfg) (dec : Z -> Z) (thr : Z) (s : svc) (e : sev) : svc * Z :=
+Definition sv_step (A : alg) (s : svc) (e : sev) : svc * Z :=
   match e with
   | EReady =>
       if sv_limit s <=? sv_inflight s then (s, 13)
       else (s, if sv_inner s =? 0 then 11 else if sv_inner s =? 1 then 10 else 12)
   | ECall a =>
       if memn a (sv_created s) then (s, 21)
-      else ({| sv_limit := sv_limit s; sv_inflight := sv_inflight s + 1;
+      else ({| sv_alg := sv_alg s; sv_inflight := sv_inflight s + 1;
                sv_live := (a, sv_now s) :: sv_live s; sv_created := a :: sv_created s;
                sv_gate := sv_gate s; sv_now := sv_now s; sv_inner := sv_inner s |}, 20)
   | ECallPanic a =>
       if memn a (sv_created s) then (s, 21)
       (* in_flight is incremented and the guard created before inner.call(); the panic
          unwinds through call() and drops the guard: no future, the slot is given back *)
-      else ({| sv_limit := sv_limit s; sv_inflight := sv_inflight s + 1 - 1;
+      else ({| sv_alg := sv_alg s; sv_inflight := sv_inflight s + 1 - 1;
                sv_live := sv_live s; sv_created := a :: sv_created s;
                sv_gate := sv_gate s; sv_now := sv_now s; sv_inner := sv_inner s |}, 26)
   | EPoll a =>
@@ -217,53 +267,62 @@ Definition sv_step (c : acfg) (dec : Z -> Z) (thr : Z) (s : svc) (e : sev) : svc
           | Some o =>
               let live' := remove_key a (sv_live s) in
               if o =? 0 then
-                (sv_set s (if thr <? sv_now s - start then ctl_fail c dec (sv_limit s)
-                           else ctl_succ c (sv_limit s)) (sv_inflight s - 1) live', 31)
+                (sv_set s (al_ok A (sv_now s - start) (sv_alg s)) (sv_inflight s - 1) live', 31)
               else if o =? 1 then
-                (sv_set s (ctl_fail c dec (sv_limit s)) (sv_inflight s - 1) live', 32)
-              else (sv_set s (sv_limit s) (sv_inflight s - 1) live', 35)
+                (sv_set s (al_err A (sv_alg s)) (sv_inflight s - 1) live', 32)
+              else (sv_set s (sv_alg s) (sv_inflight s - 1) live', 35)
           end
       end
   | EComplete a o =>
       match lookup a (sv_gate s) with
       | Some _ => (s, 40)
-      | None => ({| sv_limit := sv_limit s; sv_inflight := sv_inflight s; sv_live := sv_live s;
+      | None => ({| sv_alg := sv_alg s; sv_inflight := sv_inflight s; sv_live := sv_live s;
                     sv_created := sv_created s; sv_gate := (a, o) :: sv_gate s;
                     sv_now := sv_now s; sv_inner := sv_inner s |}, 40)
       end
   | EDrop a =>
       match lookup a (sv_live s) with
       | None => (s, 59)
-      | Some _ => (sv_set s (sv_limit s) (sv_inflight s - 1) (remove_key a (sv_live s)), 50)
+      | Some _ => (sv_set s (sv_alg s) (sv_inflight s - 1) (remove_key a (sv_live s)), 50)
       end
   | EAdvance ms =>
-      ({| sv_limit := sv_limit s; sv_inflight := sv_inflight s; sv_live := sv_live s;
+      ({| sv_alg := sv_alg s; sv_inflight := sv_inflight s; sv_live := sv_live s;
           sv_created := sv_created s; sv_gate := sv_gate s; sv_now := sv_now s + Z.max 0 ms;
           sv_inner := sv_inner s |}, 60)
   | ESetInner mode =>
-      ({| sv_limit := sv_limit s; sv_inflight := sv_inflight s; sv_live := sv_live s;
+      ({| sv_alg := sv_alg s; sv_inflight := sv_inflight s; sv_live := sv_live s;
           sv_created := sv_created s; sv_gate := sv_gate s; sv_now := sv_now s;
           sv_inner := mode |}, 70)
-  | EExtFail => (sv_set s (ctl_fail c dec (sv_limit s)) (sv_inflight s) (sv_live s), 80)
-  | EExtSucc =>
-      (sv_set s (if thr <? 0 then ctl_fail c dec (sv_limit s) else ctl_succ c (sv_limit s))
-              (sv_inflight s) (sv_live s), 81)
+  | EExtFail => (sv_set s (al_err A (sv_alg s)) (sv_inflight s) (sv_live s), 80)
+  | EExtSucc => (sv_set s (al_ok A 0 (sv_alg s)) (sv_inflight s) (sv_live s), 81)
   end.
 
-Definition sv_st (c : acfg) (dec : Z -> Z) (thr : Z) (s : svc) (e : sev) : svc :=
-  fst (sv_step c dec thr s e).
+Definition sv_st (A : alg) (s : svc) (e : sev) : svc := fst (sv_step A s e).
 
-Definition sv_init (c : acfg) (initial : Z) : svc :=
-  {| sv_limit := ctl_init c initial; sv_inflight := 0; sv_live := []; sv_created := [];
+Definition sv_init (a0 : ast) : svc :=
+  {| sv_alg := a0; sv_inflight := 0; sv_live := []; sv_created := [];
      sv_gate := []; sv_now := 0; sv_inner := 0 |}.
 
+(* the service as it was on the pinned tree (before the InFlightGuard): the counter was
+   decremented only after the inner future had been awaited to completion, so a dropped or
+   panicking call kept its slot (regression witness in Proof/Adaptive.v) *)
+Definition sv_step_pinned (A : alg) (s : svc) (e : sev) : svc * Z :=
+  match e with
+  | EDrop a =>
+      match lookup a (sv_live s) with
+      | None => (s, 59)
+      | Some _ => (sv_set s (sv_alg s) (sv_inflight s) (remove_key a (sv_live s)), 50)
+      end
+  | _ => sv_step A s e
+  end.
+
 (* run, collecting the result codes *)
-Fixpoint sv_run (c : acfg) (dec : Z -> Z) (thr : Z) (s : svc) (evs : list sev) : svc * list Z :=
+Fixpoint sv_run (A : alg) (s : svc) (evs : list sev) : svc * list Z :=
   match evs with
   | [] => (s, [])
   | e :: t =>
-      let (s', r) := sv_step c dec thr s e in
-      let (s'', rs) := sv_run c dec thr s' t in
+      let (s', r) := sv_step A s e in
+      let (s'', rs) := sv_run A s' t in
       (s'', r :: rs)
   end.
 
@@ -275,6 +334,109 @@ Definition code_delta (r : Z) : Z :=
 Fixpoint sumz (l : list Z) : Z := match l with [] => 0 | x :: t => x + sumz t end.
 
 (* ------------------------------------------------------------------------- *)
+(* (c) the service under threads: every worker owns a CLONE of one AdaptiveService<_, Aimd>
+   (clones share in_flight, current_limit and the algorithm) and calls poll_ready / call /
+   polls or drops the futures it holds, on its own OS thread; one schedule entry = one atomic
+   operation on in_flight (LInf), on the service's current_limit cell (LCur) or on the
+   controller's limit (LLim). The clock does not move (every latency is 0 <= threshold).
+     poll_ready : limit(); in_flight.load(); Pending iff in_flight >= limit
+     call       : in_flight.fetch_add(1) [guard]; inner.call(); limit(); current_limit.load();
+                  store only when they differ
+     the future, polled after the inner call got its outcome:
+                  ok / err: guard dropped = in_flight.fetch_sub(1); record_success / _failure
+                  (fetch_update on the limit); limit(); current_limit.load(); store when they
+                  differ.  panic of the inner future, or the future dropped: fetch_sub only
+     call with a panicking inner.call(): fetch_add; (unwinding) fetch_sub *)
+Inductive tv_call :=
+| TvReady
+| TvCall
+| TvFinish (o : Z)         (* 0 ok | 1 err | 2 the inner future panics | 3 dropped unpolled *)
+| TvCallPanic.
+
+Inductive tv_pc :=
+| TrLim | TrInf (lim : Z)
+| TcAdd | TcLim | TcCur (a : Z) | TcStore (a : Z)
+| TpAdd | TpSub
+| TfSub (o : Z)
+| TfSLoad (r : Z) | TfSCas (r p : Z)
+| TfFLoad (r : Z) | TfFCas (r p : Z)
+| TfLim (r : Z) | TfCur (r a : Z) | TfStore (r a : Z).
+
+Definition tv_start (c : tv_call) : tv_pc :=
+  match c with
+  | TvReady => TrLim | TvCall => TcAdd | TvFinish o => TfSub o | TvCallPanic => TpAdd
+  end.
+
+Definition tv_op (c : acfg) (dec : Z -> Z) (pc : tv_pc) : aop :=
+  match pc with
+  | TrLim | TcLim | TfSLoad _ | TfFLoad _ | TfLim _ => OLoad LLim
+  | TrInf _ => OLoad LInf
+  | TcAdd | TpAdd => OAdd LInf 1
+  | TpSub | TfSub _ => OAdd LInf (-1)
+  | TcCur _ | TfCur _ _ => OLoad LCur
+  | TcStore a | TfStore _ a => OStore LCur a
+  | TfSCas _ p => OCas LLim p (ctl_succ c p)
+  | TfFCas _ p => OCas LLim p (ctl_fail c dec p)
+  end.
+
+(* return values: the result codes of part (b): 11 / 13, 20, 26, 31 / 32 / 35 / 50 *)
+Definition tv_next (pc : tv_pc) (v : Z) (ok : bool) : tv_pc + Z :=
+  match pc with
+  | TrLim => inl (TrInf v)
+  | TrInf lim => inr (if lim <=? v then 13 else 11)
+  | TcAdd => inl TcLim
+  | TcLim => inl (TcCur v)
+  | TcCur a => if a =? v then inr 20 else inl (TcStore a)
+  | TcStore _ => inr 20
+  | TpAdd => inl TpSub
+  | TpSub => inr 26
+  | TfSub o => if o =? 0 then inl (TfSLoad 31) else if o =? 1 then inl (TfFLoad 32)
+               else if o =? 2 then inr 35 else inr 50
+  | TfSLoad r => inl (TfSCas r v)
+  | TfSCas r _ => if ok then inl (TfLim r) else inl (TfSCas r v)
+  | TfFLoad r => inl (TfFCas r v)
+  | TfFCas r _ => if ok then inl (TfLim r) else inl (TfFCas r v)
+  | TfLim r => inl (TfCur r v)
+  | TfCur r a => if a =? v then inr r else inl (TfStore r a)
+  | TfStore r _ => inr r
+  end.
+
+Definition tv_prog (c : acfg) (dec : Z -> Z) : prog tv_pc tv_call :=
+  {| p_start := tv_start; p_op := tv_op c dec; p_next := tv_next |}.
+
+Definition tv_mem (c : acfg) (initial : Z) : mem :=
+  fun l => match l with LLim | LCur => ctl_init c initial | _ => 0 end.
+
+(* the slot accounting read off a state: +1 while a call() is past its fetch_add (or a
+   panicking call() is between its fetch_add and fetch_sub), -1 while a finishing future is
+   past its fetch_sub *)
+Definition tv_weight (pc : tv_pc) : Z :=
+  match pc with
+  | TcLim | TcCur _ | TcStore _ | TpSub => 1
+  | TfSLoad _ | TfSCas _ _ | TfFLoad _ | TfFCas _ _ | TfLim _ | TfCur _ _ | TfStore _ _ => -1
+  | _ => 0
+  end.
+Definition tv_is_call (r : orec tv_call) : bool :=
+  match r_call r with TvCall => true | _ => false end.
+Definition tv_is_finish (r : orec tv_call) : bool :=
+  match r_call r with TvFinish _ => true | _ => false end.
+Definition tv_created (s : state tv_pc tv_call) : Z := countz tv_is_call (st_log s).
+Definition tv_finished (s : state tv_pc tv_call) : Z := countz tv_is_finish (st_log s).
+Definition tv_in_progress (s : state tv_pc tv_call) : Z := wsum tv_weight (st_thr s).
+
+(* a release that is NOT one atomic step (load; store of the decremented value), as a
+   well-meant rewrite of InFlightGuard::drop "to avoid underflow" would have it: regression
+   witness in Proof/Adaptive.v (two completions lose a decrement) *)
+Inductive tvn_pc := NSubLoad | NSubStore (v : Z).
+Definition tvn_prog : prog tvn_pc unit :=
+  {| p_start := fun _ => NSubLoad;
+     p_op := fun pc => match pc with NSubLoad => OLoad LInf | NSubStore v => OStore LInf v end;
+     p_next := fun pc v _ => match pc with
+                             | NSubLoad => inl (NSubStore (sat_sub v 1))
+                             | NSubStore _ => inr 50
+                             end |}.
+
+(* ------------------------------------------------------------------------- *)
 (* script interface (see harness/src/bin/c13.rs)
    kinds 1..3: [kind; p0..p6; npre; (code arg)*; nthreads; {ncalls; (code arg)*}*; nsched; entry*]
      1 AimdController: initial min max increase_by dec_num dec_den _ ;
@@ -284,7 +446,14 @@ Fixpoint sumz (l : list Z) : Z := match l with [] => 0 | x :: t => x + sumz t en
    kind 4: [4; initial; min; max; increase_by; dec_num; dec_den; threshold_ms; (op a b)*]
      op 1 poll_ready | 2 call a | 3 poll a | 4 complete a b | 5 drop a | 6 advance a ms
         | 7 inner readiness a | 8 call a with panicking inner.call()
-        | 9 algorithm().record_failure() | 10 algorithm().record_success(0) *)
+        | 9 algorithm().record_failure() | 10 algorithm().record_success(0)
+   kind 6: the same events, the service over Vegas: [6; initial; min; max; alpha; beta; 0; 0; ...]
+   kinds 7 / 8: as 4 / 6, the algorithm built by its builder, wrapped in the Algorithm enum and
+     the service made by AdaptiveLimiterLayer::layer
+   kind 5: [5; initial; min; max; increase_by; dec_num; dec_den; 0; threads as in kinds 1..3]:
+     clones of one AdaptiveService<_, Aimd> on worker threads, part (c)
+   kind 55: a kind-5 script on a tree whose service.rs atomics are not instrumented (the driver
+     cannot schedule them and says so): trace [-5] *)
 Definition ctl_decode (c : Z * Z) : ct_call :=
   if fst c =? 0 then CtSuccess else if fst c =? 1 then CtFailure
   else if fst c =? 2 then CtSuccesses (snd c) else CtLimit.
@@ -308,32 +477,44 @@ Definition sev_decode (t : Z * Z * Z) : sev :=
       else ECallPanic (Z.to_nat a)
   end.
 
-Fixpoint sv_trace (c : acfg) (dec : Z -> Z) (thr : Z) (s : svc) (evs : list sev) : svc * list Z :=
+Fixpoint sv_trace (A : alg) (s : svc) (evs : list sev) : svc * list Z :=
   match evs with
   | [] => (s, [])
   | e :: t =>
-      let (s', r) := sv_step c dec thr s e in
-      let (s'', tr) := sv_trace c dec thr s' t in
+      let (s', r) := sv_step A s e in
+      let (s'', tr) := sv_trace A s' t in
       (s'', r :: sv_inflight s' :: sv_limit s' :: tr)
   end.
 
 (* after the script: every future still alive is dropped, the inner service is made ready
    and a probe caller checks readiness *)
-Definition sv_script (c : acfg) (dec : Z -> Z) (thr initial : Z) (evs : list sev) : list Z :=
-  let (s1, tr) := sv_trace c dec thr (sv_init c initial) evs in
+Definition sv_script (A : alg) (a0 : ast) (evs : list sev) : list Z :=
+  let (s1, tr) := sv_trace A (sv_init a0) evs in
   let closing := map (fun p => EDrop (fst p)) (sv_live s1) ++ [ESetInner 0] in
-  let s2 := fold_left (sv_st c dec thr) closing s1 in
-  let (s3, r) := sv_step c dec thr s2 EReady in
+  let s2 := fold_left (sv_st A) closing s1 in
+  let (s3, r) := sv_step A s2 EReady in
   tr ++ [r; sv_inflight s3; sv_limit s3].
 
 Definition MIN_SAMPLES : Z := 10.     (* Vegas::new: min_samples: 10, smoothing: 0.5 *)
+
+(* kind 5 calls: 0 poll_ready, 1 call (arg: the worker's slot for the future), 2 finish the
+   future in slot arg/10 with outcome arg mod 10, 3 call with a panicking inner.call() *)
+Definition tv_decode (c : Z * Z) : tv_call :=
+  if fst c =? 0 then TvReady else if fst c =? 1 then TvCall
+  else if fst c =? 2 then TvFinish (snd c mod 10) else TvCallPanic.
 
 Definition run_script (s : list Z) : list Z :=
   let kind := zn s 0 in
   let c := {| a_min := zn s 2; a_max := zn s 3; a_inc := zn s 4 |} in
   let dec := dec_q (zn s 5) (zn s 6) in
-  if kind =? 4 then
-    sv_script c dec (zn s 7) (zn s 1) (map sev_decode (chunk3 (skipn 8 s)))
+  let v := {| v_min := zn s 2; v_max := zn s 3; v_alpha := zn s 4; v_beta := zn s 5;
+              v_min_samples := MIN_SAMPLES |} in
+  if (kind =? 4) || (kind =? 7) then
+    sv_script (aimd_alg c dec (zn s 7)) (aimd_init c (zn s 1)) (map sev_decode (chunk3 (skipn 8 s)))
+  else if (kind =? 6) || (kind =? 8) then
+    sv_script (vegas_alg v smooth_half qest_q) (vegas_init v (zn s 1))
+              (map sev_decode (chunk3 (skipn 8 s)))
+  else if kind =? 55 then [-5]
   else
     match parse_threads (skipn 8 s) with
     | (pre, ths, sch) =>
@@ -345,9 +526,10 @@ Definition run_script (s : list Z) : list Z :=
         else if kind =? 2 then
           run_machine (ct_prog c dec (zn s 7)) snap (ct_mem c (zn s 1))
                       (map aimd_decode pre) (map (map aimd_decode) ths) sched
+        else if kind =? 5 then
+          run_machine (tv_prog c dec) (fun m : mem => [m LInf; m LLim]) (tv_mem c (zn s 1))
+                      (map tv_decode pre) (map (map tv_decode) ths) sched
         else
-          let v := {| v_min := zn s 2; v_max := zn s 3; v_alpha := zn s 4; v_beta := zn s 5;
-                      v_min_samples := MIN_SAMPLES |} in
           run_machine (vg_prog v smooth_half qest_q) snap (vg_mem v (zn s 1))
                       (map vg_decode pre) (map (map vg_decode) ths) sched
     end.
